@@ -5,9 +5,12 @@
 (* A chain  L0 <- L1 <- ... <- Ld  (Lk extends L(k-1)).  Every level has a  *)
 (* block table  name -> body  and a document (the text outside / around    *)
 (* blocks; only L0's document is ever rendered).  A body is a tuple of      *)
-(* items:  text(s) | super | block(name, wrap)  where block(...) is the     *)
+(* items:  text(s) | super | loopvar | block(name, wrap)  where block(...) is *)
 (* place where a block is defined *and* rendered; wrap says whether it sits *)
-(* directly, in an `if`, or in a `for` over a two-element list.             *)
+(* directly, in an `if`, or in a `for` over the two-element list (1, 2);     *)
+(* loopvar prints the variable of the innermost enclosing such loop (empty   *)
+(* outside any) - also when it is reached through Super or through a block   *)
+(* item of another definition: it is evaluated where and when it is rendered.*)
 (*                                                                         *)
 (* Rendering Lk = L0's document with every block item replaced by the       *)
 (* definition from the most-derived level <= k that defines the name;       *)
@@ -19,6 +22,7 @@ EXTENDS Integers, Sequences, FiniteSets, TLC
 
 Text(s) == [t |-> "text", s |-> s]
 Super == [t |-> "super"]
+LoopVar == [t |-> "loopvar"]
 Block(name, wrap) == [t |-> "block", name |-> name, wrap |-> wrap]
 
 \* chain: tuple of levels (index 1 = L0); level: [doc |-> items, blocks |-> [names -> items]]
@@ -26,34 +30,35 @@ Defines(level, name) == name \in DOMAIN level.blocks
 \* the levels <= k (1-based index) that define name, ascending
 DefLevels(chain, k, name) == SelectSeq([i \in 1..k |-> i], LAMBDA i : Defines(chain[i], name))
 
-RECURSIVE RenderItems(_, _, _, _, _), RenderDefs(_, _, _, _, _), Repeat(_, _)
+RECURSIVE RenderItems(_, _, _, _, _, _), RenderDefs(_, _, _, _, _, _), Repeat(_, _)
 Repeat(s, n) == IF n = 0 THEN <<>> ELSE s \o Repeat(s, n - 1)
 
 \* defs: the definitions (levels) still below the one being rendered - what `super` can reach
 \* fuel bounds the nesting of block executions: definitions at different levels can refer to each other in a cycle
 \* (a's parent definition contains b, b's override contains a whose override asks for Super ...); such chains have no
 \* finite rendering - "CYCLE" marks them and they are kept out of the conformance replay (see DESIGN.md, C01)
-RenderDefs(chain, k, name, defs, fuel) ==
+RenderDefs(chain, k, name, defs, fuel, lv) ==
   IF defs = <<>> THEN <<>>
   ELSE IF fuel = 0 THEN <<"CYCLE">>
   ELSE LET j == defs[Len(defs)] IN
-       RenderItems(chain, k, chain[j].blocks[name], [name |-> name, below |-> SubSeq(defs, 1, Len(defs) - 1)], fuel - 1)
+       RenderItems(chain, k, chain[j].blocks[name], [name |-> name, below |-> SubSeq(defs, 1, Len(defs) - 1)], fuel - 1, lv)
 
 \* cur: the block whose body is being rendered ([name, below]) or NoBlock in the document
 NoBlock == [name |-> "", below |-> <<>>]
-RenderItems(chain, k, items, cur, fuel) ==
+RenderItems(chain, k, items, cur, fuel, lv) ==
   IF items = <<>> THEN <<>>
   ELSE LET it == Head(items) IN
        LET here ==
          CASE it.t = "text" -> <<it.s>>
-           [] it.t = "super" -> IF cur.name = "" THEN <<>> ELSE RenderDefs(chain, k, cur.name, cur.below, fuel)
+           [] it.t = "loopvar" -> <<lv>>
+           [] it.t = "super" -> IF cur.name = "" THEN <<>> ELSE RenderDefs(chain, k, cur.name, cur.below, fuel, lv)
            [] it.t = "block" ->
-                LET once == RenderDefs(chain, k, it.name, DefLevels(chain, k, it.name), fuel) IN
-                CASE it.wrap = "none" -> once [] it.wrap = "if" -> once [] it.wrap = "for" -> Repeat(once, 2)
-       IN here \o RenderItems(chain, k, Tail(items), cur, fuel)
+                LET once(v) == RenderDefs(chain, k, it.name, DefLevels(chain, k, it.name), fuel, v) IN
+                CASE it.wrap = "none" -> once(lv) [] it.wrap = "if" -> once(lv) [] it.wrap = "for" -> once("1") \o once("2")
+       IN here \o RenderItems(chain, k, Tail(items), cur, fuel, lv)
 
 \* rendering the template at level k (1-based): the base document, dispatching over levels 1..k
-Render(chain, k) == RenderItems(chain, k, chain[1].doc, NoBlock, 12)
+Render(chain, k) == RenderItems(chain, k, chain[1].doc, NoBlock, 12, "")
 Cyclic(out) == \E i \in 1..Len(out) : out[i] = "CYCLE"
 
 \* ---- properties of the definition itself
